@@ -58,6 +58,162 @@ def lits(): return ("\x00" * 3, b"\\" * 999 + b"\xc3", "a" * 70000)
 '''
 
 
+ITER_TMPL = r"""
+def _mut({L}l, {I}mode):
+    if mode == 1: l.pop()
+    elif mode == 2: l.pop(); l.pop()
+    elif mode == 3: l.clear()
+    elif mode == 4: del l[1:]
+    elif mode == 5: l.extend(range(1000))
+    elif mode == 6: del l[:]; l.extend(range(3))
+    elif mode == 7: l.insert(0, -1)
+    elif mode == 8: del l[len(l) // 2:]
+
+def _mutb({B}b, {I}mode):
+    if mode == 1: b.pop()
+    elif mode == 2: b.pop(); b.pop()
+    elif mode == 3: b.clear()
+    elif mode == 4: del b[1:]
+    elif mode == 5: b.extend(bytes(1000))
+    elif mode == 6: del b[:]; b.extend(b'abc')
+    elif mode == 7: b.insert(0, 1)
+    elif mode == 8: del b[len(b) // 2:]
+
+def rev_list({L}l, {I}mode, {I}at):
+    out = []; n = 0
+    try:
+        for x in reversed(l):
+            out.append(x)
+            if n == at: _mut(l, mode)
+            n += 1
+    except IndexError: out.append('IndexError')
+    return out
+
+def fwd_list({L}l, {I}mode, {I}at):
+    out = []; n = 0
+    try:
+        for x in l:
+            out.append(x)
+            if n == at: _mut(l, mode)
+            n += 1
+            if n > 1100: break
+    except IndexError: out.append('IndexError')
+    return out
+
+def enum_list({L}l, {I}mode, {I}at):
+    out = []
+    try:
+        for i, x in enumerate(l):
+            out.append((i, x))
+            if i == at: _mut(l, mode)
+            if i > 1100: break
+    except IndexError: out.append('IndexError')
+    return out
+
+def idx_list({L}l, {I}mode, {I}at):
+    out = []
+    try:
+        for i in range(len(l)):
+            out.append(l[i])
+            if i == at: _mut(l, mode)
+    except IndexError: out.append('IndexError')
+    return out
+
+def fwd_ba({B}b, {I}mode, {I}at):
+    out = []; n = 0
+    try:
+        for c in b:
+            out.append(c)
+            if n == at: _mutb(b, mode)
+            n += 1
+            if n > 1100: break
+    except IndexError: out.append('IndexError')
+    return out
+
+def rev_ba({B}b, {I}mode, {I}at):
+    out = []; n = 0
+    try:
+        for c in reversed(b):
+            out.append(c)
+            if n == at: _mutb(b, mode)
+            n += 1
+    except IndexError: out.append('IndexError')
+    return out
+
+def dict_it({D}d, {I}mode, {I}at):
+    out = []; n = 0
+    try:
+        for k in d:
+            out.append(k)
+            if n == at:
+                if mode == 1: d.popitem()
+                elif mode == 3: d.clear()
+                elif mode == 5: d.update((i, i) for i in range(1000, 1100))
+                elif mode == 7: d[-1] = 0; del d[-1]
+            n += 1
+    except RuntimeError: out.append('RuntimeError')
+    return out
+
+def set_it({S}s, {I}mode, {I}at):
+    n = 0; cnt = 0
+    try:
+        for k in s:
+            cnt += 1
+            if n == at:
+                if mode == 1: s.pop()
+                elif mode == 3: s.clear()
+                elif mode == 5: s.update(range(1000, 1100))
+            n += 1
+    except RuntimeError: return 'RuntimeError'
+    return cnt if mode == 0 else 'done'
+
+def unpack_it({L}l, {I}mode):
+    class It:
+        def __init__(self): self.n = 0
+        def __iter__(self): return self
+        def __next__(self):
+            self.n += 1
+            if self.n == 2: _mut(l, mode)
+            if self.n > 3: raise StopIteration
+            return self.n
+    try:
+        a, b, c = It()
+        return (a, b, c, len(l))
+    except ValueError: return 'ValueError'
+"""
+ITER_PYX = "# cython: language_level=3\n" + ITER_TMPL.format(L="list ", I="int ", B="bytearray ", D="dict ", S="set ")
+ITER_PY = ITER_TMPL.format(L="", I="", B="", D="", S="")
+
+
+def iter_cases():
+    cs = []
+    for n in (0, 1, 2, 5, 40, 300):
+        for mode in range(9):
+            for at in (0, 1, n // 2, n - 1):
+                if at < 0:
+                    continue
+                for f in ("rev_list", "fwd_list", "enum_list", "idx_list"):
+                    cs.append((f, "(list(range(%d)), %d, %d)" % (n, mode, at)))
+                for f in ("fwd_ba", "rev_ba"):
+                    cs.append((f, "(bytearray(range(%d)), %d, %d)" % (min(n, 250), mode, at)))
+                if mode in (0, 1, 3, 5, 7):
+                    cs.append(("dict_it", "(dict.fromkeys(range(%d)), %d, %d)" % (n, mode, at)))
+                if mode in (0, 1, 3, 5):
+                    cs.append(("set_it", "(set(range(%d)), %d, %d)" % (n, mode, at)))
+            cs.append(("unpack_it", "(list(range(%d)), %d)" % (n, mode)))
+    seen = set(); out = []
+    for c in cs:
+        if c not in seen:
+            seen.add(c); out.append(c)
+    return out
+
+
+def _canon(v):          # same canonical form as the child runner of cybuild.run_cases
+    if isinstance(v, (tuple, list)):
+        return type(v).__name__ + ':[' + ';'.join(_canon(x) for x in v) + ']'
+    return type(v).__name__ + ':' + repr(v)
+
+
 def asan_env():
     lib = subprocess.run(["gcc", "-print-file-name=libasan.so"], stdout=subprocess.PIPE, text=True).stdout.strip()
     return {"LD_PRELOAD": lib, "ASAN_OPTIONS": "detect_leaks=0:abort_on_error=1:allocator_may_return_null=1",
@@ -129,6 +285,7 @@ def run(ctx):
     flags = ["-fsanitize=address,undefined", "-fno-sanitize-recover=undefined", "-g", "-fno-omit-frame-pointer"]
     specs = [dict(name="c36probe", source=c39.PROBE, cflags=flags, ldflags=["-fsanitize=address,undefined"], opt="-O1"),
              dict(name="c36extra", source=EXTRA, cflags=flags, ldflags=["-fsanitize=address,undefined"], opt="-O1")]
+    specs += [dict(name="c36iter", source=ITER_PYX, cflags=flags, ldflags=["-fsanitize=address,undefined"], opt="-O1")]
     if not ctx.quick:
         specs += [dict(name="c36extra2", source=EXTRA, cflags=flags, ldflags=["-fsanitize=address,undefined"], opt="-O2")]
     sos = cybuild.build_many(ctx, specs)
@@ -166,4 +323,26 @@ def run(ctx):
                         ctx.tie_break("UBSan build of __Pyx_pow vs CyVerif.C36.powLoopChecked", "%s(%d,%d): model %s" % (f, b, e, m), {"func": f, "b": b, "e": e})
                     if o != exp and not o.startswith(("crash", "timeout")):
                         ctx.violation("intpow-value-%s" % f, "%s(%d,%d) = %s, exact %d fits" % (f, b, e, o, b ** e), {"func": f, "b": b, "e": e})
+    # containers mutated while a compiled loop iterates over them: no sanitizer report and the same items as CPython
+    icases = iter_cases()
+    if ctx.quick:
+        icases = icases[::3] + [c for c in icases if c[0] in ("rev_list", "rev_ba")][1::3]
+    iso = sos[[x["name"] for x in specs].index("c36iter")]
+    iouts = cybuild.run_cases(ctx, iso, icases, env_extra=env, timeout_per_case=30)
+    pyns = {}
+    exec(ITER_PY, pyns)
+    for (f, a), o in zip(icases, iouts):
+        ctx.count("iter/%s" % f)
+        ctx.seen(("iter", f, a))
+        if o.startswith(("crash", "timeout")):
+            ctx.violation("sanitizer-%s" % f, "%s%s in the ASan+UBSan build: %s (container mutated during a compiled loop)" % (f, a, o), {"module": "iter", "func": f, "args": a, "outcome": o})
+            continue
+        try:
+            r = pyns[f](*eval(a))
+            exp = "ok " + _canon(r)
+        except Exception as e:
+            exp = "err " + type(e).__name__
+        if o != exp:
+            ctx.violation("iter-mutation-%s" % f, "%s%s: compiled %s, CPython %s (stale or out-of-range items read from a container that changed during the loop)" % (f, a, o[:150], exp[:150]),
+                          {"module": "iter", "func": f, "args": a, "compiled": o[:300], "cpython": exp[:300]})
     ctx.sample({"sanitizer_env": env["ASAN_OPTIONS"], "probe_calls": len(pcases), "extra_calls": len(ecases), "example": [ecases[0], "ok"]})
